@@ -576,7 +576,7 @@ func decorate(r *Rng, n *Node, max int, skip map[string]bool) *Node {
 	return n
 }
 
-var richSkip = map[string]bool{"full-width": true, "background-url": true, "mode": true, "height": true, "background-height": true, "background-width": true}
+var richSkip = map[string]bool{"hamburger": true, "full-width": true, "background-url": true, "mode": true, "height": true, "background-height": true, "background-width": true}
 
 type RichOpts struct {
 	Sent      func() string // content sentinel generator (nil ⇒ fixed words)
